@@ -185,6 +185,7 @@ type gSeqSpec struct {
 	Witness      func(op gOp, kind string) string
 	Records      [][]int // pre-drawn records (differential runs share them)
 	RestartEvery bool    // restart the file store after every request
+	OverHTTP     bool    // serve through a real net/http server on a loopback socket
 }
 
 type gSeqResult struct {
@@ -215,6 +216,9 @@ func gOpShape(op gOp) string {
 
 func runGSeq(r *Run, spec gSeqSpec, clk *Clock) *gSeqResult {
 	w := NewGCSWorld(r, spec.Store, "", clk)
+	if spec.OverHTTP {
+		w.ServeOverHTTP()
+	}
 	res := &gSeqResult{World: w, Model: newGModel()}
 	r.Defer(func() { res.World.Destroy() })
 	ps := r.T.S("prog.0")
